@@ -52,8 +52,8 @@ pub struct Monitor {
     manual: bool,
     /// Interval within which a PINGREQ is owed and failures are due (0: no obligation). The
     /// statement speaks of "the keep-alive interval"; an MQTT 5 CONNACK may carry a server
-    /// keep alive that differs from the configured one: a client is held to the longer of
-    /// the two, and to none when either of them is zero.
+    /// keep alive that differs from the configured one: that value is then the interval
+    /// of the connection (MQTT 5, 3.2.2.3.14).
     keep_alive_ms: u64,
     /// the shorter of the two intervals (premise of the false-alarm clause)
     keep_alive_lo_ms: u64,
@@ -330,12 +330,14 @@ impl Monitor {
                 if *code == 0 {
                     self.resumed = Some(*sp);
                     if let Some(ka) = server_ka {
-                        // MQTT 5, 3.2.2.3.14: the client uses the server's value — the
-                        // statement does not say so, either interval is accepted
-                        let (cfg, srv) = (self.keep_alive_cfg_ms, *ka as u64 * 1000);
-                        self.keep_alive_ms = if cfg == 0 || srv == 0 { 0 } else { cfg.max(srv) };
-                        self.keep_alive_lo_ms = cfg.min(srv);
-                        self.pings_forbidden = cfg == 0 && srv == 0;
+                        // MQTT 5, 3.2.2.3.14: when the CONNACK carries a server keep alive, that
+                        // value *is* the keep-alive interval of the connection, from its first
+                        // interval on (a first version accepted either interval; a client that
+                        // mixes the two — seed C18-d — then went unnoticed)
+                        let srv = *ka as u64 * 1000;
+                        self.keep_alive_ms = srv;
+                        self.keep_alive_lo_ms = srv;
+                        self.pings_forbidden = srv == 0;
                     } else {
                         self.keep_alive_ms = self.keep_alive_cfg_ms;
                         self.keep_alive_lo_ms = self.keep_alive_cfg_ms;
